@@ -5,7 +5,7 @@ import subprocess
 import vlib
 
 LIBS = ("-lboost_timer", "-lboost_program_options", "-lboost_thread", "-ltbb", "-lpthread")
-RULE = ("library: every sequence of 1..L calls set_global_tbb_concurrency(n), n in {1,2,3,5,16}, each call issued from one of three call sites (two translation units on the main thread - the header's inline function is expanded in both - and a fresh thread that ends right after the call) and with the number held as std::size_t, int or unsigned, each sequence in a fresh process; after every call "
+RULE = ("library: every sequence of 1..L calls set_global_tbb_concurrency(n), n in {1,2,3,5,16,hw+1,2hw+9} (hw = number of hardware threads TBB reports; a limit above the machine is legal), each call issued from one of three call sites (two translation units on the main thread - the header's inline function is expanded in both - and a fresh thread that ends right after the call) and with the number held as std::size_t, int or unsigned, each sequence in a fresh process; after every call "
         "tbb::global_control::active_value(max_allowed_parallelism) must equal n (a parallel_for runs between calls so the scheduler is live); after the sequence a library call "
         "(mcb_sva_signed_tbb on K4) must still see the last value. demos: mcb-dimacs.cpp and approx-mcb-dimacs.cpp run in-process (main renamed) for every combination of "
         "algorithm options {default, fvstrees, isotrees, --signed=false alone, all three false, signed+fvstrees} x verbose x printcycles x cores in {1,2,3} (x k in {2,3}) with --parallel=true; active_value is sampled when the demo prints its 'Using ..._TBB' line. "
@@ -31,8 +31,11 @@ def run(tier):
     c.builds_done()
     f = os.path.join(vlib.BUILD, "k4.dimacs")
     open(f, "w").write(K4)
-    r = vlib.run_harness(b["knob_lib"], ["--len", 2 if tier == "quick" else 3])
-    c.add_run(r, "library call sequences :: " + r["args"], None, replay={"harness": "knob_lib"})
+    # oversubscribed limits are slow to exercise (each call is followed by a parallel_for on the real runtime): sequences of 3 calls use the five
+    # values up to 16, sequences of up to 2 calls all seven values
+    for args in ([["--len", 2, "--nv", 7]] if tier == "quick" else [["--len", 3, "--nv", 5], ["--len", 2, "--nv", 7]]):
+        r = vlib.run_harness(b["knob_lib"], args)
+        c.add_run(r, "library call sequences :: " + r["args"], None, replay={"harness": "knob_lib"})
     r = vlib.run_harness(b["knob_demo_mcb"], ["--file", f])
     c.add_run(r, "mcb-dimacs option matrix :: " + r["args"], None, replay={"harness": "knob_demo_mcb"})
     r = vlib.run_harness(b["knob_demo_approx"], ["--file", f, "--ks", "2,3"])
